@@ -224,6 +224,101 @@ def touched_roots(hist):
     return nt
 
 
+# ------------------------------------------------------------------ CCodeWriter level (Code.py: write/_write_lines/
+# insertion_point/new_writer/insert): the marker of every output line must be last_marked_pos[:2] of the writer at the
+# time of the write, (None, 0) when nothing was marked yet
+class _FakeGlobalState:
+    code_config = None
+
+
+def ccw_generate(rng, maxlen):
+    """op list for a CCodeWriter-level history (model only decides which inserts are valid)"""
+    models = [Hole()]
+    hist = []
+    for step in range(rng.randint(5, maxlen)):
+        h = rng.randrange(len(models)) if rng.random() < 0.6 else len(models) - 1
+        r = rng.random()
+        if r < 0.45:
+            hist.append(['W', h, rng.choice(WRITE_KINDS)])
+        elif r < 0.62:
+            hist.append(['pos', h, step])
+        elif r < 0.82:
+            models.append(models[h].insertion_point())
+            hist.append(['ip', h])
+        elif r < 0.90:
+            models.append(Hole())
+            hist.append(['nw', h])
+        else:
+            cands = [o for o in range(len(models)) if o != h and models[o].parent is None and not models[o].contains(models[h])]
+            if cands:
+                o = rng.choice(cands)
+                models[h].insert(models[o])
+                hist.append(['ins', h, o])
+    return hist
+
+
+def ccw_run(Code, hist, acc):
+    root = Code.CCodeWriter()
+    root.set_global_state(_FakeGlobalState())
+    reals = [root]
+    models = [Hole()]
+    lmp = [None]
+    try:
+        for step, op in enumerate(hist):
+            k, h = op[0], op[1]
+            if k == 'W':
+                text, nl = frag_for(op[2], step)
+                reals[h].write(text)
+                m = lmp[h][:2] if lmp[h] else (None, 0)
+                models[h].write(text, [m] * nl)
+            elif k == 'pos':
+                pos = ('src%d' % (op[2] % 3), op[2], op[2] % 7)
+                reals[h].last_marked_pos = pos
+                lmp[h] = pos
+            elif k == 'ip':
+                reals.append(reals[h].insertion_point())
+                models.append(models[h].insertion_point())
+                lmp.append(lmp[h])
+            elif k == 'nw':
+                reals.append(reals[h].new_writer())
+                models.append(Hole())
+                lmp.append(lmp[h])
+            elif k == 'ins':
+                reals[h].insert(reals[op[2]])
+                models[h].insert(models[op[2]])
+            else:
+                raise ValueError(op)
+        for i in range(len(reals)):
+            exp = models[i].value()
+            got = reals[i].getvalue()
+            if got != exp:
+                raise Discrepancy('ccodewriter:getvalue:' + diagnose([f[0] for f in models[i].frags()], got),
+                                  {'handle': i, 'expected': exp, 'observed': got})
+            buf = io.StringIO()
+            reals[i].copyto(buf)
+            if buf.getvalue() != exp:
+                raise Discrepancy('ccodewriter:copyto:' + diagnose([f[0] for f in models[i].frags()], buf.getvalue()),
+                                  {'handle': i, 'expected': exp, 'observed': buf.getvalue()})
+            em = [list(x) for x in models[i].markers()]
+            gm = [list(x) for x in reals[i].buffer.allmarkers()]
+            if gm != em:
+                how = 'count' if len(gm) != len(em) else 'wrong-marker'
+                raise Discrepancy('ccodewriter:allmarkers:' + how, {'handle': i, 'expected': em, 'observed': gm})
+            acc.observations += 3
+    except Discrepancy as d:
+        acc.record_disc(d, hist, 'ccodewriter')
+    except Exception as e:
+        acc.record_disc(Discrepancy('ccodewriter:exception:' + type(e).__name__, {'error': repr(e)[:300]}), hist, 'ccodewriter')
+    acc.evaluations += 1
+    acc.ccw += 1
+    if any(m.nholes() for m in models if m.parent is None):
+        acc.ccw_nontrivial += 1
+
+
+def ccw_history(Code, rng, maxlen, acc):
+    ccw_run(Code, ccw_generate(rng, maxlen), acc)
+
+
 class Acc:
     def __init__(self):
         self.evaluations = 0
@@ -237,6 +332,8 @@ class Acc:
         self.disc = {}       # key -> {count, history, detail}
         self.samples = []
         self.leaves = 0
+        self.ccw = 0
+        self.ccw_nontrivial = 0
         self.b_every = 1
         self.b_runs = 0
 
@@ -380,6 +477,19 @@ def main():
         for i in range(spec['count']):
             hist = random_history(rng, spec['maxlen'])
             acc.judge(cls, hist, True)
+        if spec.get('ccw_count'):
+            import Cython.Compiler.Code as Code
+            cf = Code.__file__
+            if not (cf.endswith('.py') and os.path.realpath(cf).startswith(mroot + os.sep)) or Code.StringIOTree is not cls:
+                out['mirror_ok'] = False
+                out['module_file'] = cf
+                json.dump(out, open(sys.argv[2], 'w'))
+                return 3
+            for i in range(spec['ccw_count']):
+                ccw_history(Code, rng, 120, acc)
+    elif spec['mode'] == 'replay' and spec.get('witness_mode') == 'ccodewriter':
+        import Cython.Compiler.Code as Code
+        ccw_run(Code, spec['history'], acc)
     elif spec['mode'] == 'replay':
         acc.judge(cls, spec['history'], False)
         for mode in ('touched', 'all'):
@@ -387,7 +497,7 @@ def main():
                 run_history(cls, spec['history'], mode)
             except Discrepancy as d:
                 acc.record_disc(d, spec['history'], 'every-step-' + mode)
-    out.update({'every_step_runs': acc.b_runs, 'evaluations': acc.evaluations, 'histories': acc.histories, 'nontrivial': acc.nontrivial,
+    out.update({'ccw_histories': acc.ccw, 'ccw_nontrivial': acc.ccw_nontrivial, 'every_step_runs': acc.b_runs, 'evaluations': acc.evaluations, 'histories': acc.histories, 'nontrivial': acc.nontrivial,
                 'observations': acc.observations, 'opcount': acc.opcount, 'maxdepth': acc.maxdepth,
                 'maxhandles': acc.maxhandles, 'by_len': acc.by_len, 'disc': acc.disc, 'samples': acc.samples})
     with open(sys.argv[2], 'w') as fo:
